@@ -211,6 +211,9 @@ def oracle_closed(case, obs):
                          f'({"its own registration removed" if live else "nothing removed"})')
         if prev and t['polled'] != prev.get('polled'):
             v.append(f'{what} changed the service configuration')
+        if t.get('custom_n') is not None and t.get('custom_ids_n') is not None and t['custom_n'] != t['custom_ids_n']:
+            v.append(f'{what}: the service now keeps {t["custom_n"]} registered tracepoint(s) under {t["custom_ids_n"]} '
+                     f'handle(s) — handles and tracepoints are no longer paired (every handle theorem rests on the pairing)')
         if op['op'] == 'register':
             late += 1
             ref.nreg += 1            # the handle number is used up; the caller holds no handle
@@ -246,6 +249,13 @@ def compare(case, obs, resp):
                 d.append(f'{what}: custom model {sorted(m["custom"])} vs implementation {sorted(i["custom"])}')
             if m['queued'] != i['queued']:
                 d.append(f'{what}: queued model {m["queued"]} vs implementation {i["queued"]}')
+            for key in ('custom_n', 'custom_ids_n'):
+                if i.get(key) is not None and m[key] != i[key]:
+                    d.append(f'{what}: {key} model {m[key]} vs implementation {i[key]}')
+            # the exception conjuncts (`.2 = (none, some e)` / `.2 = some e`): did the refusal leave the call
+            if m['raised'] != ('raised' in i):
+                d.append(f'{what}: refusal raised into the caller: model {m["raised"]} vs implementation '
+                         f'{i.get("raised", "returned normally")}')
             if svcref.norm_hash(m['hash']) != svcref.norm_hash(i['hash']):
                 d.append(f'{what}: hash model {m["hash"]!r} vs implementation {i["hash"]!r}')
             if sorted(m['polled']) != sorted(i['polled']):
